@@ -493,7 +493,7 @@ EXPRS_F = [
      ('or', 'minimization_successful', ('and', 'rounding_errors', 'sigdigs >= 0.1'))),
 ]
 SD_TABLE = [0, 0.05, 0.1, 0.15, 3]
-RSE_TABLE = [0.0, 0.39, 0.4, 0.41, 2]
+RSE_TABLE = [0.0, 0.39, 0.4, 0.41, 2]      # (an index is only read when the expression mentions the criterion)
 
 
 def _tree_val(t, R_):
@@ -549,10 +549,13 @@ def strictness_float(x: int, nan: bool, ms: bool, tc: int, sdi: int, r0i: int, r
     R.is_strictness_fulfilled = _real['isf']
     x = [j for j in range(len(EXPRS_F)) if j == x][0]
     tc = [j for j in range(3) if j == tc][0]
-    sd = SD_TABLE[[j for j in range(5) if j == sdi][0]]
-    r0 = RSE_TABLE[[j for j in range(5) if j == r0i][0]]
-    r1 = RSE_TABLE[[j for j in range(5) if j == r1i][0]]
     text, tree = EXPRS_F[x]
+    sd, r0, r1 = 3, 0.0, 0.0
+    if 'sigdigs' in text:
+        sd = SD_TABLE[[j for j in range(5) if j == sdi][0]]
+    if 'rse' in text:
+        r0 = RSE_TABLE[[j for j in range(5) if j == r0i][0]]
+        r1 = RSE_TABLE[[j for j in range(5) if j == r1i][0]]
     R_ = dict(nan=nan, ms=ms, tc=tc, sd=sd, rse0=r0, rse1=r1, fzg=fzg)
     got = R.is_strictness_fulfilled(None, SRes(R_), text)
     if nan:
